@@ -6,7 +6,7 @@ use watchexec_supervisor::{command::{Command, Program}, job::{start_job, Command
 use watchexec_signals::Signal;
 
 #[derive(Debug, Clone, Copy, PartialEq)]
-enum Beh { ExitsAfter(u64), ExitsAfterSignal(u64), Ignores, SpawnFails, KillFails(u64), SignalFails }
+enum Beh { ExitsAfter(u64), ExitsAfterSignal(u64), Ignores, SpawnFails, KillFails(u64), SignalFails, WaitFails }
 
 #[derive(Debug)]
 struct Shared { t0: Instant, log: Mutex<Vec<(u128, String)>>, n: Mutex<usize>, behs: Vec<Beh> }
@@ -29,12 +29,12 @@ impl TokioCommandWrapper for SimWrapper {
         let beh = self.0.beh_at(id);
         self.0.log(format!("spawn:c{id}"));
         let exit_at = match beh { Beh::ExitsAfter(ms) => Some(Instant::now() + Duration::from_millis(ms)), Beh::KillFails(ms) if ms > 0 => Some(Instant::now() + Duration::from_millis(ms)), _ => None };
-        Ok(Box::new(SimChild { inner, id, beh, sh: self.0.clone(), exit_at: Mutex::new(exit_at), status: Mutex::new(0), wake: Arc::new(Notify::new()), reaped: false }))
+        Ok(Box::new(SimChild { inner, id, beh, sh: self.0.clone(), exit_at: Mutex::new(exit_at), status: Mutex::new(0), wake: Arc::new(Notify::new()), reaped: false, wait_failed: false }))
     }
 }
 
 #[derive(Debug)]
-struct SimChild { inner: Box<dyn TokioChildWrapper>, id: usize, beh: Beh, sh: Arc<Shared>, exit_at: Mutex<Option<Instant>>, status: Mutex<i32>, wake: Arc<Notify>, reaped: bool }
+struct SimChild { inner: Box<dyn TokioChildWrapper>, id: usize, beh: Beh, sh: Arc<Shared>, exit_at: Mutex<Option<Instant>>, status: Mutex<i32>, wake: Arc<Notify>, reaped: bool, wait_failed: bool }
 impl TokioChildWrapper for SimChild {
     fn inner(&self) -> &Child { self.inner.inner() }
     fn inner_mut(&mut self) -> &mut Child { self.inner.inner_mut() }
@@ -59,6 +59,8 @@ impl TokioChildWrapper for SimChild {
     fn try_wait(&mut self) -> Result<Option<ExitStatus>> { unimplemented!() }
     fn wait(&mut self) -> Box<dyn Future<Output = Result<ExitStatus>> + Send + '_> {
         Box::new(async move {
+            // fault injection (fault scripts only): the first wait() on this child fails, the process lives on
+            if self.beh == Beh::WaitFails && !self.wait_failed { self.wait_failed = true; self.sh.log(format!("waitfail:c{}", self.id)); return Err(std::io::Error::other("injected wait failure")); }
             loop {
                 let notified = self.wake.notified();
                 tokio::pin!(notified);
@@ -202,7 +204,7 @@ fn main() {
     for line in stdin.lock().lines() {
         let line = line.unwrap(); let f: Vec<&str> = line.split(' ').collect();
         if f.len() != 3 { writeln!(o, "bad-line").unwrap(); continue; }
-        let behs: Vec<Beh> = f[1].split(',').map(|b| match b.as_bytes()[0] { b'E' => Beh::ExitsAfter(b[1..].parse().unwrap()), b'S' => Beh::ExitsAfterSignal(b[1..].parse().unwrap()), b'F' => Beh::SpawnFails, b'K' => Beh::KillFails(b[1..].parse().unwrap_or(0)), b'G' => Beh::SignalFails, _ => Beh::Ignores }).collect();
+        let behs: Vec<Beh> = f[1].split(',').map(|b| match b.as_bytes()[0] { b'E' => Beh::ExitsAfter(b[1..].parse().unwrap()), b'S' => Beh::ExitsAfterSignal(b[1..].parse().unwrap()), b'F' => Beh::SpawnFails, b'K' => Beh::KillFails(b[1..].parse().unwrap_or(0)), b'G' => Beh::SignalFails, b'W' => Beh::WaitFails, _ => Beh::Ignores }).collect();
         let ops: Vec<String> = f[2].split(';').map(|s| s.to_string()).collect();
         let rt = tokio::runtime::Builder::new_current_thread().enable_all().start_paused(true).build().unwrap();
         let res = rt.block_on(run_case(behs, ops));
